@@ -8,7 +8,7 @@ From Continuum Require Import Model.Base Model.VTable Model.Backfill Model.Core
 (* ------------------------------------------------------------------ shape of a flush *)
 Lemma flush_shape g s objs ents assoc :
   g_versioning g = true -> g_native g = false ->
-  let s1 := before_flush g s objs in
+  let s1 := before_flush g s objs ents in
   let ops' := fold_left (track g) ents (u_ops (s_uow s1)) in
   let s' := flush g s objs ents assoc in
   d_live (s_db s') = fold_left (apply_live g) ents (d_live (s_db s)) /\
@@ -22,7 +22,7 @@ Lemma flush_shape g s objs ents assoc :
   end.
 Proof.
   intros Hv Hn s1 ops' s'. subst s'. unfold flush. rewrite Hv. simpl.
-  fold (before_flush g s objs). fold s1. fold ops'.
+  fold (before_flush g s objs ents). fold s1. fold ops'.
   destruct (u_cur (s_uow s1)) as [T|] eqn:Ecur; [|simpl; auto].
   destruct ops' as [|o l] eqn:Eops; [simpl; auto|].
   rewrite Hn.
@@ -31,13 +31,13 @@ Proof.
   simpl. auto.
 Qed.
 
-Lemma before_flush_same g s objs :
-  let s1 := before_flush g s objs in
+Lemma before_flush_same g s objs ents :
+  let s1 := before_flush g s objs ents in
   d_vt (s_db s1) = d_vt (s_db s) /\ d_live (s_db s1) = d_live (s_db s) /\
   u_ops (s_uow s1) = u_ops (s_uow s) /\
-  (u_cur (s_uow s1) = None <-> (u_cur (s_uow s) = None /\ existsb (obj_modified g) objs = false)).
+  (u_cur (s_uow s1) = None <-> (u_cur (s_uow s) = None /\ existsb (obj_modified g) objs || existsb (tracked g) ents = false)).
 Proof.
-  unfold before_flush. destruct (existsb (obj_modified g) objs) eqn:M.
+  unfold before_flush. destruct (existsb (obj_modified g) objs || existsb (tracked g) ents) eqn:M.
   - destruct (u_cur (s_uow s)) eqn:C; simpl.
     + split; [reflexivity|]. split; [reflexivity|]. split; [reflexivity|].
       rewrite C. split; [discriminate | intros [X _]; discriminate].
@@ -64,8 +64,7 @@ Record flush_wf (g : cfg) (live : list lrow) (objs : list obj_st) (ents : list e
            exists old, find_live live (e_cls e) (ev_key g e) = Some old /\
                        (dat_of (cls_of g (e_cls e)) (e_vals e) <> dat_of (cls_of g (e_cls e)) (l_vals old) ->
                         tracked g e = true);
-  (* a tracked change makes the session count as modified (finding 10 is where this fails) *)
-  fw_mod : (exists e, In e ents /\ tracked g e = true) -> existsb (obj_modified g) objs = true }.
+  fw_unused : True }.
 
 Definition ops_valid (g : cfg) (ops : list oper) : Prop :=
   forall o, In o ops -> (op_cls o < length (g_classes g))%nat.
@@ -274,37 +273,37 @@ Section FlushC01.
   Hypothesis I4 : Inv4 g s.
   Hypothesis WF : flush_wf g (d_live (s_db s)) objs ents.
 
-  Let s1 := before_flush g s objs.
+  Let s1 := before_flush g s objs ents.
   Let ops' := fold_left (track g) ents (u_ops (s_uow s1)).
   Let s' := flush g s objs ents assoc.
 
   Lemma ops'_valid : ops_valid g ops'.
   Proof.
     intros o Ho. unfold ops' in Ho. apply fold_track_in in Ho as [Ho|[e [He [_ [Hid _]]]]].
-    - destruct I3 as [_ [V _]]. apply V. destruct (before_flush_same g s objs) as [_ [_ [E _]]].
+    - destruct I3 as [_ [V _]]. apply V. destruct (before_flush_same g s objs ents) as [_ [_ [E _]]].
       fold s1 in E. rewrite <- E. exact Ho.
     - unfold op_id, ev_id in Hid. inversion Hid as [[E1 E2]]. rewrite E1. apply (fw_cls _ _ _ _ WF e He).
   Qed.
 
   Lemma ops'_nodup : NoDup (map op_id ops').
   Proof.
-    unfold ops'. apply fold_track_nodup. destruct (before_flush_same g s objs) as [_ [_ [E _]]].
+    unfold ops'. apply fold_track_nodup. destruct (before_flush_same g s objs ents) as [_ [_ [E _]]].
     fold s1 in E. rewrite E. apply I3.
   Qed.
 
   Lemma no_tracked_ops' : (forall e, In e ents -> tracked g e = false) -> ops' = u_ops (s_uow s).
   Proof.
     intro H. unfold ops'. rewrite fold_track_untracked by exact H.
-    destruct (before_flush_same g s objs) as [_ [_ [E _]]]. exact E.
+    destruct (before_flush_same g s objs ents) as [_ [_ [E _]]]. exact E.
   Qed.
 
   Lemma cur_none_no_tracked :
     u_cur (s_uow s1) = None -> forall e, In e ents -> tracked g e = false.
   Proof.
     intros Hc e He. destruct (tracked g e) eqn:T; [|reflexivity]. exfalso.
-    destruct (before_flush_same g s objs) as [_ [_ [_ Hiff]]]. fold s1 in Hiff.
-    apply Hiff in Hc as [_ Hm].
-    rewrite (fw_mod _ _ _ _ WF) in Hm; [discriminate|]. exists e. auto.
+    destruct (before_flush_same g s objs ents) as [_ [_ [_ Hiff]]]. fold s1 in Hiff.
+    apply Hiff in Hc as [_ Hm]. apply orb_false_iff in Hm as [_ Hm].
+    assert (existsb (tracked g) ents = true) by (apply existsb_exists; exists e; auto). congruence.
   Qed.
 
   Theorem flush_Inv3 : Inv3 g s'.
@@ -319,7 +318,7 @@ Section FlushC01.
       + intros o Ho. apply in_map_iff in Ho as [o0 [<- _]]. reflexivity.
     - destruct Hshape as [_ Eops]. rewrite Eops, Ecur.
       pose proof (no_tracked_ops' (cur_none_no_tracked C)) as E0.
-      destruct (before_flush_same g s objs) as [_ [_ [_ Hiff]]]. fold s1 in Hiff.
+      destruct (before_flush_same g s objs ents) as [_ [_ [_ Hiff]]]. fold s1 in Hiff.
       apply Hiff in C as [C0 _]. destruct I3 as [_ [_ [Hnone _]]].
       rewrite E0, (Hnone C0). repeat split; try constructor; try contradiction; auto.
       intros o [].
@@ -335,7 +334,7 @@ Section FlushC01.
     assert (Hid : op_id o = (c, k)).
     { apply (vk_inj g o c k FL); [apply ops'_valid; exact Ho | exact Hc | congruence]. }
     unfold ops' in Ho. apply fold_track_in in Ho as [Ho|[e [He [Ht [Hide _]]]]].
-    - destruct I3 as [_ [_ [_ Hproc]]]. destruct (before_flush_same g s objs) as [_ [_ [E0 _]]].
+    - destruct I3 as [_ [_ [_ Hproc]]]. destruct (before_flush_same g s objs ents) as [_ [_ [E0 _]]].
       fold s1 in E0. rewrite E0 in Ho. rewrite (Hproc o Ho) in Hp. discriminate.
     - specialize (Hno e He). rewrite Ht in Hno. simpl in Hno.
       assert (is_ev g c k e = true) by (apply is_ev_spec; congruence). congruence.
@@ -348,7 +347,7 @@ Section FlushC01.
     NoDup (map (vk g) (unproc ops')).
   Proof.
     intro C.
-    destruct (before_flush_all g s objs IA) as [[[V _] [_ [HcurI _]]] [[Hdb [Hcm [VI [Hcache Herr]]]] _]].
+    destruct (before_flush_all g s objs ents IA) as [[[V _] [_ [HcurI _]]] [[Hdb [Hcm [VI [Hcache Herr]]]] _]].
     fold s1 in V, HcurI, Hdb, Hcm, VI, Hcache, Herr.
     destruct (HcurI T C) as [HT Hmax].
     split; [exact HT|]. split.
@@ -366,7 +365,7 @@ Section FlushC01.
     intros Hc Hno.
     destruct (flush_shape g s objs ents assoc Hv Hn) as [_ [_ Hshape]].
     fold s1 ops' s' in Hshape.
-    destruct (before_flush_same g s objs) as [Evt1 _]. fold s1 in Evt1.
+    destruct (before_flush_same g s objs ents) as [Evt1 _]. fold s1 in Evt1.
     destruct (u_cur (s_uow s1)) as [T|] eqn:C.
     - destruct Hshape as [Evt' _]. destruct (acc0_ok T C) as [HT [A0 NDk]].
       destruct (fold_rows g T (d_tx (s_db s1)) ops' _ CC HT A0 NDk) as [_ [F2 F3]].
@@ -493,7 +492,7 @@ Lemma flush_committed g s objs ents assoc :
   g_versioning g = true -> s_committed (flush g s objs ents assoc) = s_committed s.
 Proof.
   intro Hv. destruct (flush_unfold g s objs ents assoc Hv) as [_ [_ E]]. rewrite E.
-  unfold before_flush. destruct (existsb (obj_modified g) objs); [|reflexivity].
+  unfold before_flush. destruct (existsb (obj_modified g) objs || existsb (tracked g) ents); [|reflexivity].
   destruct (u_cur (s_uow s)); reflexivity.
 Qed.
 
@@ -556,11 +555,11 @@ Section FlushOnly.
   Proof.
     intro Hr'.
     destruct (flush_shape g s objs ents assoc Hv Hn) as [_ [Ecur Hshape]].
-    destruct (before_flush_same g s objs) as [Evt1 [_ [Eops1 _]]].
-    destruct (u_cur (s_uow (before_flush g s objs))) as [T|] eqn:C.
+    destruct (before_flush_same g s objs ents) as [Evt1 [_ [Eops1 _]]].
+    destruct (u_cur (s_uow (before_flush g s objs ents))) as [T|] eqn:C.
     - destruct Hshape as [Evt' _].
       destruct (acc0_ok g s objs ents FL IA I3 WF T C) as [HT [A0 NDk]].
-      destruct (fold_rows g T (d_tx (s_db (before_flush g s objs))) (fold_left (track g) ents (u_ops (s_uow (before_flush g s objs)))) _ CC HT A0 NDk) as [_ [_ F3]].
+      destruct (fold_rows g T (d_tx (s_db (before_flush g s objs ents))) (fold_left (track g) ents (u_ops (s_uow (before_flush g s objs ents)))) _ CC HT A0 NDk) as [_ [_ F3]].
       cbn [fst] in F3. rewrite <- Evt' in F3. rewrite Evt1 in F3.
       destruct (F3 r' Hr') as [[o [Ho [Hp [R1 [R2 _]]]]]|[r [Hr [[U1 [U2 [U3 U4]]] _]]]].
       + right. apply fold_track_in in Ho as [Ho|[e [He [Ht [Hid _]]]]].
